@@ -626,15 +626,20 @@ func classOf(fl string) string {
 	return "bad:" + fl[:1]
 }
 
-// exitBroadcastFailureProbe (implementation-side oracle only, nothing for the model): the voluntary-exit runner caches the
-// exit message in `r.voluntaryExit` at the very end of executeDuty, after Network.Broadcast. When the operator's OWN
-// broadcast fails, the duty state is nevertheless set up, the peers' shares reach a quorum, and ProcessPreConsensus submits
-// whatever is cached: nothing on a first duty (nil message, then a nil dereference), the previous duty's message otherwise.
+// exitBroadcastFailureProbe (implementation-side oracle only, nothing for the model) — regression case of the fixed finding
+// `C05/voluntary-exit:cached-exit-message-not-set-when-own-broadcast-fails` (fix be4261283): the voluntary-exit runner keeps the
+// exit message of the duty in `r.voluntaryExit`. When the operator's OWN broadcast fails the duty is nevertheless armed and
+// the peers' shares reach a quorum; whatever ProcessPreConsensus then submits must be THIS duty's exit with a signature that
+// verifies (before the fix: a nil message followed by a nil dereference on a first duty, the previous duty's message otherwise).
 func exitBroadcastFailureProbe(run *hx.Run) {
 	kind, _ := rkit.KindByName("exit")
 	ks := rkit.KeySet(4)
 	bn, net, km := rkit.NewRecBeacon(), &rkit.RecNet{}, rkit.NewRecKM()
 	env := rkit.NewEnvWith(kind, ks, 1, bn, net, km)
+	fresh := func() { // a runner that has not executed any duty yet
+		bn, net, km = rkit.NewRecBeacon(), &rkit.RecNet{}, rkit.NewRecKM()
+		env = rkit.NewEnvWith(kind, ks, 1, bn, net, km)
+	}
 	const sig = "C05/voluntary-exit:cached-exit-message-not-set-when-own-broadcast-fails"
 	replay := []string{"exitprobe"}
 	duty := func(delta uint64, fail bool) {
@@ -654,8 +659,14 @@ func exitBroadcastFailureProbe(run *hx.Run) {
 				_ = env.Runner.ProcessPreConsensus(env.Log, m)
 			}()
 		}
+		if len(bn.Subs) > 1 {
+			run.Violate("C05/decided-object-submitted-twice", fmt.Sprintf("exit n=4: %d submissions for the duty at slot %d", len(bn.Subs), d.Slot), replay...)
+		}
 		for _, s := range bn.Subs {
 			ex, _ := s.Obj.(*phase0.VoluntaryExit)
+			if ex != nil && ex.Epoch != spectypes.BeaconTestNetwork.EstimatedEpochAtSlot(d.Slot) {
+				run.Violate(sig, fmt.Sprintf("exit n=4: own broadcast of the duty at slot %d failed; the exit message of epoch %d was submitted for it", d.Slot, ex.Epoch), replay...)
+			}
 			if ex == nil {
 				run.Violate(sig, fmt.Sprintf("exit n=4: own broadcast of the duty at slot %d failed; SubmitVoluntaryExit was called with a nil message", d.Slot), replay...)
 				continue
@@ -668,6 +679,9 @@ func exitBroadcastFailureProbe(run *hx.Run) {
 	}
 	duty(1, false)
 	duty(38, true)
+	fresh()
+	duty(0, true) // first duty of a runner, own broadcast fails
+	duty(70, true)
 	run.Tag("op/exitprobe")
 }
 
